@@ -484,7 +484,7 @@ func (s *Solver) fast(all []*T, wantModel bool) (Result, *Model) {
 		fmt.Fprintf(os.Stderr, "slow cone print %.2fs bytes=%d\n", time.Since(tc).Seconds(), len(txt))
 	}
 	s.lastConeBytes = len(txt)
-	if d := os.Getenv("SYMGO_DUMPBIG"); d != "" && len(txt) > 150000 {
+	if d := os.Getenv("SYMGO_DUMPBIG"); d != "" && len(txt) > 20000 {
 		s.nDump++
 		os.WriteFile(fmt.Sprintf("%s/big%d_%d.smt2", d, os.Getpid(), s.nDump), []byte(txt), 0o644)
 	}
